@@ -233,6 +233,7 @@ func (r *Results) Stats() QueryStats {
 func (r *Results) Close() error {
 	r.closeOnce.Do(func() {
 		r.cancel()
+		verifPoint("results.close.canceled")
 		<-r.done
 
 		err := r.joinedErrs()
@@ -251,6 +252,7 @@ func (r *Results) Close() error {
 // terminal state.
 func (r *Results) terminate() bool {
 	r.cancel()
+	verifPoint("results.terminate")
 	<-r.done
 
 	var err error
@@ -302,6 +304,7 @@ func (r *Results) deliver(slot *querySlot, batch []map[string]any) error {
 	}
 
 	slot.release()
+	verifPoint("deliver.blocked")
 	select {
 	case r.rowChan <- batch:
 	case <-r.ctx.Done():
